@@ -62,6 +62,10 @@ class TraceInterp(WalkInterp):
             return Sym('slice', base, _n(idx[1]), _n(idx[2]))
         return self.NOT_HANDLED
 
+    def on_while(self, node, frame):
+        # (an executor written with an explicit work stack instead of recursion)
+        return self.unroll_while(node, frame, 400)
+
     def on_with(self, node, frame):
         # `with state.new_loop(repeat):` -- the contextmanager of CompilerState, modelled natively
         if len(node.items) == 1:
@@ -1008,7 +1012,7 @@ def rule_r9(repo):
             if r1.ok or r1.exc.cls != c.exc.cls:
                 rr.fail('concrete:%s:compile' % name, fi.where, '%s: the plain walk %s, compiling the template %s' % (name, _outcome(r1), _outcome(c)), witness={'template': name})
             continue
-        st2, rd2 = P.plain_state(repo), P.ScriptReader(script)
+        st2, rd2 = P.plain_state(repo), P.ScriptReader(script, True)
         r2 = P.replay(repo, stmts, st2, rd2)
         if not r1.ok:
             n_err += 1
@@ -1032,7 +1036,7 @@ def rule_r9(repo):
                 break
         # the same compiled statements run a second time (the next message with this template): nothing of the first run may be left
         # in them - same result again
-        st3, rd3 = P.plain_state(repo), P.ScriptReader(script)
+        st3, rd3 = P.plain_state(repo), P.ScriptReader(script, True)
         r3 = P.replay(repo, stmts, st3, rd3)
         if r3.ok != r2.ok or (r3.ok and (rd3.log != rd2.log or st3.fields['decoded_values_all_subsets'] != st2.fields['decoded_values_all_subsets'] or
                                          [_dk(d) for d in st3.fields['decoded_descriptors_all_subsets'][0]] != [_dk(d) for d in st2.fields['decoded_descriptors_all_subsets'][0]] or
@@ -1050,7 +1054,7 @@ def rule_r9(repo):
         if lstmts is None:
             rr.fail('concrete:%s:json-load' % name, fi.where, '%s: the compiled template written out as JSON cannot be loaded back (%s)' % (name, _outcome(rl)), witness={'template': name})
         else:
-            st4, rd4 = P.plain_state(repo), P.ScriptReader(script)
+            st4, rd4 = P.plain_state(repo), P.ScriptReader(script, True)
             r4 = P.replay(repo, lstmts, st4, rd4)
             jk = lambda d: (d.fields.get('id'), d.fields.get('marker_id'), d.fields.get('nbits') if d.cls == 'MarkerDescriptor' else None) if isinstance(d, Obj) else repr(d)
             if not r4.ok:
@@ -1066,6 +1070,19 @@ def rule_r9(repo):
                         rr.fail('concrete:%s:json' % name, fi.where, '%s: after a save / load through JSON the compiled template gives other %s than the plain walk (position %s: '
                                 '%r / %r)' % (name, what, k, a[k:k + 2] if k is not None else a, b[k:k + 2] if k is not None else b), witness={'template': name})
                         break
+        # a run that fails half way (the data end early) must leave the compiled statements as they were: the next run gives the result
+        # of the first
+        if len(script) > 3:
+            st5, rd5 = P.plain_state(repo), P.ScriptReader(script[:len(script) // 2], True)
+            P.replay(repo, stmts, st5, rd5)        # (the scripted reader runs dry: the interrupted run)
+            st6, rd6 = P.plain_state(repo), P.ScriptReader(script, True)
+            r6 = P.replay(repo, stmts, st6, rd6)
+            if r6.ok != r2.ok or (r6.ok and (rd6.log != rd2.log or st6.fields['decoded_values_all_subsets'] != st2.fields['decoded_values_all_subsets'])):
+                k = _first_idx(rd2.log, rd6.log)
+                rr.fail('concrete:%s:second-run-after-failure' % name, fi.where, '%s: after a run of the same compiled template that broke off half way, the next run %s and '
+                        'differs from a first run (field %s: %r / %r; values %r / %r): an interrupted run must not leave anything in the compiled template' % (
+                            name, _outcome(r6), k, rd2.log[k:k + 1] if k is not None else None, rd6.log[k:k + 1] if k is not None else None,
+                            st2.fields['decoded_values_all_subsets'][0][-4:], st6.fields['decoded_values_all_subsets'][0][-4:]), witness={'template': name})
         # encoder: the decoded values written back by the plain walk and by the compiled template
         vals = st1.fields['decoded_values_all_subsets'][0]
         e1, _, w1 = P.encode(repo, members, vals)
@@ -1075,6 +1092,16 @@ def rule_r9(repo):
         w2 = P.ScriptWriter()
         e2 = P.replay(repo, stmts, est, w2, coder='Encoder')
         rr.instance('encoder: %s' % name)
+        if len(vals) > 2:
+            # ... and with fewer values than the template needs: the same error from both
+            short = list(vals[:-1])
+            f1, _, _w = P.encode(repo, members, short)
+            sts_ = fold_init(repo, False, 1, values=[list(short)])
+            est_ = ([x for x in sts_ if all(type(v) is list for v in x.fields.get('decoded_values_all_subsets', [None]))] or sts_)[0]
+            f2 = P.replay(repo, stmts, est_, P.ScriptWriter(), coder='Encoder')
+            if f1.ok != f2.ok or (not f1.ok and f1.exc.cls != f2.exc.cls):
+                rr.fail('concrete:%s:encoder-short' % name, fi.where, '%s, one value too few: the plain encoder %s, the compiled template %s - the same input must give the same '
+                        'error' % (name, _outcome(f1), _outcome(f2)), witness={'template': name})
         if e1.ok != e2.ok or (not e1.ok and e1.exc.cls != e2.exc.cls) or (e1.ok and w1.log != w2.log):
             k = _first_idx(w1.log, w2.log)
             rr.fail('concrete:%s:encoder' % name, fi.where, '%s: the plain encoder %s and writes %d fields, the compiled template %s and writes %d fields; first difference at '
